@@ -213,6 +213,54 @@ def check(ctx, prog, stats, do_sub):
     stats["programs"] += 1
 
 
+def check_metaclass_irrelevance(ctx, stats):
+    """a class passed as the argument, a method declared on its METACLASS, and added methods that can never accept a class
+    (value-dependent annotations): the added methods must not change the outcome.  Classes with custom metaclasses are
+    outside the modelled worlds, so this is the property oracle alone."""
+    import abc, enum, typing
+    import ovld as _ov
+    from ovld.dependent import StartsWith
+
+    class Meta(type):
+        pass
+
+    class K(metaclass=Meta):
+        pass
+
+    class E(enum.Enum):
+        A = 1
+
+    class Ab(abc.ABC):
+        pass
+    for meta, arg in ((Meta, K), (enum.EnumMeta, E), (abc.ABCMeta, Ab)):
+        outs = []
+        for extras in ([], [typing.Literal[1]], [tuple[int, int], list[int]], [StartsWith["a"], typing.Literal["x", "y"]]):
+            f = _ov.Ovld(name="f")
+
+            def m_meta(x: meta):
+                return "metaclass"
+
+            def m_obj(x: object):
+                return "object"
+            f.register(m_meta)
+            f.register(m_obj)
+            for k, t in enumerate(extras):
+                def extra(x):
+                    return "extra"
+                extra.__annotations__ = {"x": t}
+                f.register(extra)
+            try:
+                outs.append(f(arg))
+            except TypeError as e:
+                outs.append("TypeError:" + str(e)[:50])
+            stats["evaluations"] += 1
+            stats["metaclass_irrelevance_calls"] += 1
+        if any(o != outs[0] for o in outs):
+            ctx.violation(f"methods that cannot accept a class change the outcome of f({arg.__name__}) with a method on its metaclass {meta.__name__}: {outs}",
+                          {"metaclass": meta.__name__})
+            return
+
+
 def gen_value_prog(rng):
     """value-typed programs whose outcome could depend on iteration order: families of tuple[...] types with one
     ordered and one unrelated component, and families of overlapping multi-valued Literals"""
@@ -281,6 +329,7 @@ def run(ctx):
     stats = collections.Counter()
     samples = []
     distinct = set()
+    check_metaclass_irrelevance(ctx, stats)
     n = 40 if ctx.quick() else 1500
     for i in range(n):
         prog = gen_prog(ctx.rng)
